@@ -152,6 +152,16 @@ def oracle(case):
         if sd[a] < 1e-6:
             cls.append('degenerate-free-column')
             continue
+        # precondition: the fitted marginal must be continuous at the floating-point resolution of its values
+        # (a degenerate MLE fit, e.g. Gamma with shape 0.1 and |loc| ~ 1e3, puts visible mass inside one ulp: the
+        # normal scores of the sample then cannot be recovered through the marginal CDF)
+        xs = np.sort(X[:, j])
+        dl = vs.resolution_of(unis[j])(xs)
+        with np.errstate(invalid='ignore'):
+            jump = np.nanmax(np.asarray(unis[j].cdf(xs + dl), dtype=float) - np.asarray(unis[j].cdf(xs - dl), dtype=float))
+        if jump > 1e-3:
+            cls.append('marginal-not-continuous-at-float-resolution')
+            continue
         cdf, cdf_left = censored_cdf(mu[a], sd[a])
         dist = vs.ks_distance_atoms(scores[:, a], cdf, cdf_left)
         worst = max(worst, dist / eps)
